@@ -98,6 +98,20 @@ def check_iter(fd):
                                                     f'expected {[x.time for x in got][:8]}'))
         except Exception as exc:  # noqa: BLE001
             out.append(fail('raises', f'nested iteration: {exc!r}', exc=exc_sig(exc)))
+    # the consumer may do what it likes with the messages it is handed, also while the iteration is still running
+    if not out:
+        try:
+            times = []
+            for m in mid:
+                times.append(m.time)
+                m.time = 123.0
+                if m.type == 'set_tempo':
+                    m.tempo = 1
+            if times != [x.time for x in got]:
+                out.append(fail('consumer-edit', f'times change when the consumer edits yielded messages: {times[:8]} vs '
+                                                 f'{[x.time for x in got][:8]}'))
+        except Exception as exc:  # noqa: BLE001
+            out.append(fail('raises', f'iteration with an editing consumer: {exc!r}', exc=exc_sig(exc)))
     # length follows an in-place edit made after it was read once
     if not out and fd['tracks']:
         try:
@@ -247,8 +261,51 @@ def check_units(case):
     return out
 
 
+TIMING_FILES = ('mido/midifiles/units.py', 'mido/midifiles/midifiles.py', 'mido/midifiles/tracks.py')
+LAST_STEPS = [0]
+
+
+def check_threads(case):
+    """Two threads convert / iterate two different files at the same time: each gets the times the exact tempo map of
+    its own file gives, wherever the thread switch falls (statement granularity in units.py / midifiles.py / tracks.py)."""
+    from lib.sched import run_threads
+    fds = case['files']
+
+    def worker(fd):
+        def body():
+            mid = build(fd)
+            times = [m.time for m in mid]
+            conv = [mido.tick2second(t, fd['tpb'], tp) for t, tp in ((480, 500000), (1, 250000))]
+            return times, conv, mid.length
+        return body
+    results, errors, steps, reason = run_threads(TIMING_FILES, [worker(fd) for fd in fds], schedule=case.get('sched'),
+                                                 first=case.get('first', 0), max_steps=200000)
+    LAST_STEPS[0] = steps
+    if reason:
+        raise RuntimeError(f'scheduler: {reason}')
+    out = []
+    for i, fd in enumerate(fds):
+        if errors[i] is not None:
+            out.append(fail('threads-raise', f'thread {i}: {errors[i]!r}', exc=exc_sig(errors[i])))
+            continue
+        times, conv, length = results[i]
+        sched = exact_schedule(fd)
+        if len(times) != len(sched) or any(not close(a, ds, 1e-12) for a, (d, ds, c) in zip(times, sched)):
+            out.append(fail('threads-times', f'thread {i}: times {times[:8]} differ from the tempo map of its own file '
+                                             f'{[float(ds) for d, ds, c in sched][:8]} while another thread works on '
+                                             f'another file'))
+        want = [Fraction(480 * 500000, 10 ** 6 * fd['tpb']), Fraction(250000, 10 ** 6 * fd['tpb'])]
+        if any(not close(a, w, 1e-12) for a, w in zip(conv, want)):
+            out.append(fail('threads-units', f'thread {i}: tick2second gives {conv}, exact {[float(w) for w in want]}'))
+        if not close(length, sched[-1][2] if sched else 0, 1e-9):
+            out.append(fail('threads-length', f'thread {i}: length {length}'))
+    return out
+
+
 def run_case(case):
     k = case['kind']
+    if k == 'threads':
+        return check_threads(case)
     if k == 'iter':
         return check_iter(case['file'])
     if k == 'type2':
@@ -262,6 +319,8 @@ def run_case(case):
 
 def nontrivial(case):
     k = case['kind']
+    if k == 'threads':
+        return bool(case.get('sched'))
     if k == 'units':
         return case['tick'] > 0
     if k == 'type2':
@@ -350,7 +409,31 @@ def hyp_shard(rec, shard):
         rec.hyp(units, n, seed_offset=300 + k)
 
 
+def thread_shard(rec, shard):
+    k, n = shard
+
+    def note(tm, ch):
+        return {'type': 'note_on', 'channel': ch, 'note': 60, 'velocity': 64, 'time': tm}
+    fa = {'type': 1, 'tpb': 480, 'tracks': [[note(480, 0), {'type': 'set_tempo', 'tempo': 250000, 'time': 0}, note(480, 0)]]}
+    fb = {'type': 1, 'tpb': 96, 'tracks': [[note(96, 1), {'type': 'set_tempo', 'tempo': 1000000, 'time': 48}, note(96, 1)]]}
+    for first in (0, 1):
+        base = {'kind': 'threads', 'files': [fa, fb], 'sched': [], 'first': first}
+        rec.execute(base)
+        steps = LAST_STEPS[0]
+        if k == 0:
+            rec.check(base, sample=False)
+        for i in range(steps):
+            if i % n == k:
+                rec.check({'kind': 'threads', 'files': [fa, fb], 'sched': [[i, 1]], 'first': first}, distinct=True,
+                          sample=(i == 40 and first == 0), classes=('threads',))
+                # and a second switch shortly afterwards (back to the first thread in the middle of the other's call)
+                for gap in (1, 2, 3, 5):
+                    rec.check({'kind': 'threads', 'files': [fa, fb], 'sched': [[i, 1], [i + gap, 1]], 'first': first},
+                              distinct=True, sample=False, classes=('threads',))
+
+
 def main(ctx):
+    ctx.pmap('thread_shard', [(k, 16) for k in range(16)])
     n = 6000 if ctx.tier == 'quick' else 100000
     w = 8 if ctx.tier == 'quick' else 16
     ctx.pmap('hyp_shard', [('iter', k, n // w) for k in range(w)] + [('play', k, n // w) for k in range(w)] +
